@@ -172,6 +172,35 @@ def scripted_cases():
     ops = [["peer_set_best", main], ["settle", 9], ["peer_set_best", main[:10] + [20, 21, 22, 23, 24]], ["settle", 7],
            ["process"], ["deliver", 2], ["deliver", 0], ["settle", SETTLE]]
     res.append({"cfg": {"parents": par, "start": 0, "m": 2000}, "ops": ops})
+    # in sync, then more announced blocks than the request window holds (10 requested + a backlog), and a fork whose
+    # parent is still in the backlog (queued, not yet requested) before any block is delivered
+    n = 22
+    main = list(range(0, n + 1))
+    for fork_parent, flen in ((17, 5), (16, 8), (12, 12), (20, 3)):
+        par = [[i, i - 1] for i in range(1, n + 1)]
+        fork, prev = [], fork_parent
+        for j in range(flen):
+            par.append([40 + j, prev])
+            prev = 40 + j
+            fork.append(prev)
+        for deliveries in ([["deliver", 0]], [["deliver", 0], ["answer", 0], ["deliver", 0], ["process"]]):
+            ops = [["peer_set_best", main[:6]], ["settle", SETTLE], ["peer_set_best", main[:21]]] + deliveries + \
+                  [["peer_set_best", main[:fork_parent + 1] + fork], ["deliver", 0], ["settle", SETTLE],
+                   ["peer_set_best", main[:fork_parent + 1] + fork + [90]], ["settle", SETTLE]]
+            res.append({"cfg": {"parents": par + [[90, fork[-1]]], "start": 0, "m": 2000}, "ops": ops})
+    # several blocks requested at once, some processed while a later one is outstanding, and exactly then the request
+    # queue is emptied: by a disconnect / a request time-out, or by the peer replacing the outstanding block
+    par = [[i, i - 1] for i in range(1, 12)] + [[60, 8], [61, 60], [62, 61]]
+    main = list(range(0, 12))
+    for nproc in (1, 2, 3):
+        for breaker in ([["disconnect"]], [["advance", 700], ["timeouts"]], [["peer_set_best", main[:9] + [60, 61, 62]], ["deliver", 0]],
+                        [["restartnode"]]):
+            ops = [["peer_set_best", main[:6]], ["settle", SETTLE], ["peer_set_best", main[:10]], ["deliver", 0], ["answer", 0]]
+            for _ in range(nproc):
+                ops += [["deliver", 0], ["process"]]
+            ops += breaker + [["settle", SETTLE], ["peer_set_best", (main[:9] + [60, 61, 62] if breaker[0][0] == "peer_set_best" else main) ],
+                              ["settle", SETTLE]]
+            res.append({"cfg": {"parents": par, "start": 0, "m": 2000}, "ops": ops})
     return res
 
 
